@@ -571,6 +571,19 @@ pub fn menu(seed: &Seed, with_unsealed: bool) -> Vec<Mutation> {
                         doc.push_str(&xml[tag_end + 1..]);
                         m.push(Mutation::XmlRaw { bytes: doc.into_bytes(), what: format!("{k} namespace declarations on the root element and {k} children declaring one more") });
                     }
+                    // the same shape with the root below any per-element limit: 1000 declarations on the
+                    // root element, 20000 children declaring one more
+                    {
+                        let mut doc = String::with_capacity(xml.len() + 20 * 21_000);
+                        doc.push_str(&xml[..tag_end]);
+                        for i in 0..1000 {
+                            doc.push_str(&format!(" xmlns:n{i}=\"u\""));
+                        }
+                        doc.push('>');
+                        doc.push_str(&"<x xmlns:p=\"q\"/>".repeat(20_000));
+                        doc.push_str(&xml[tag_end + 1..]);
+                        m.push(Mutation::XmlRaw { bytes: doc.into_bytes(), what: "1000 namespace declarations on the root element and 20000 children declaring one more".into() });
+                    }
                     for k in [150_000usize, 600_000] {
                         let mut doc = String::with_capacity(xml.len() + 16 * k);
                         doc.push_str(&xml[..tag_end]);
